@@ -65,6 +65,83 @@ Print Assumptions C18_assign_exactly_one.
 Print Assumptions C18_assign_even.
 Print Assumptions C18_assign_recomputed.
 
+(** * Membership half: which nodes count as reachable (model C18/Member.v of
+      checkNodeAvailability / sendPing / getOnlineNodes, proofs C18/MemberProofs.v)
+
+    For every history of ping rounds - a first round in which exactly this node
+    answers with our own identifier, then arbitrary replies (no reply / error,
+    non-object reply, a pong with any identifier and a right or wrong version,
+    hence joins, leaves, restarts and swaps in any order) - the online flags
+    after the last round are exactly the reachable nodes of that round (this
+    node, and every node that answered with a foreign identifier and the right
+    version), this node holds exactly the backends the assignment gives it for
+    that set, and it runs exactly those peers. *)
+From LMD Require Import C18.Member C18.MemberProofs.
+
+Theorem C18_membership_follows_last_round :
+  forall (ownid : str) (own n : nat) (backends : list str) (r0 : list reply) (hist : list (list reply)),
+    NoDup backends -> Forall (fun b => nonempty b = true) backends ->
+    own < n -> init_round ownid own r0 = true ->
+    Forall (fun rs => length rs = n) (r0 :: hist) ->
+    let s := mrun ownid backends n (r0 :: hist) in
+    let up := reachable ownid own (last hist r0) in
+    me s = Some own /\ onl s = up /\
+    mine (node s) = nth own (assign up backends) [] /\
+    NoDup (running (node s)) /\ (forall b, In b (running (node s)) <-> In b (mine (node s))).
+Proof.
+  intros ownid own n backends r0 hist Hnd Hne Hown Hi Hall s up.
+  pose proof (mrun_inv ownid own n backends r0 hist Hnd Hne Hown Hi Hall) as [[H1 [_ [H3 [H4 [H5 _]]]]] H6].
+  fold s in H1, H3, H4, H5, H6. fold up in H6. rewrite H6 in H3.
+  exact (conj H1 (conj H6 (conj H3 (conj H4 H5)))).
+Qed.
+
+(** ... together with the partition theorem: after every such history each
+    backend is held by exactly one node that was reachable in the last round *)
+Theorem C18_membership_exactly_one_reachable :
+  forall (ownid : str) (own n : nat) (backends : list str) (r0 : list reply) (hist : list (list reply)) (b : str),
+    NoDup backends -> Forall (fun b => nonempty b = true) backends ->
+    own < n -> init_round ownid own r0 = true ->
+    Forall (fun rs => length rs = n) (r0 :: hist) -> In b backends ->
+    let s := mrun ownid backends n (r0 :: hist) in
+    exists i, nth i (reachable ownid own (last hist r0)) false = true /\
+              In b (nth i (assign (onl s) backends) []) /\
+              forall j, In b (nth j (assign (onl s) backends) []) -> j = i.
+Proof.
+  intros ownid own n backends r0 hist b Hnd Hne Hown Hi Hall Hb s.
+  pose proof (mrun_inv ownid own n backends r0 hist Hnd Hne Hown Hi Hall) as [_ H6].
+  fold s in H6. rewrite H6.
+  pose proof (Forall_last (fun rs => length rs = n) hist r0 Hall) as Hlast. cbn beta in Hlast.
+  destruct (assign_exactly_one (reachable ownid own (last hist r0)) backends b
+              (reachable_pos ownid own _ ltac:(rewrite Hlast; exact Hown)) Hnd Hne Hb) as [i [_ [Hi1 [Hi2 Hi3]]]].
+  exists i. exact (conj Hi1 (conj Hi2 Hi3)).
+Qed.
+
+(** a restarted partner (same address, another identifier) is recorded and forces a redistribution *)
+Theorem C18_restart_detected :
+  forall ownid nid ident vok, nonempty nid = true -> nid <> ident ->
+    ping_one ownid false nid (Pong ident vok) = (ident, if str_eqb ident ownid then false else vok, true, false).
+Proof. exact ping_one_restart. Qed.
+
+(** non-vacuity: 3 nodes, we are node 0; node 1 up, then node 1 leaves and node 2 joins in the
+    same round (same number of nodes online), then node 2 restarts with a new identifier *)
+Example C18_membership_example :
+  let bs := map (fun n => [n]) [97;98;99]%N in
+  let me := [109]%N in
+  let h := [[Pong me true; Pong [65]%N true; NoReply];
+            [NoReply; NoReply; Pong [66]%N true];
+            [NoReply; Garbage; Pong [67]%N true]] in
+  init_round me 0 (hd [] h) = true /\
+  onl (mrun me bs 3 (firstn 1 h)) = [true; true; false] /\
+  onl (mrun me bs 3 (firstn 2 h)) = [true; false; true] /\
+  ids (mrun me bs 3 h) = [me; [65]; [67]]%N /\
+  mine (node (mrun me bs 3 h)) = [[97]; [98]]%N.
+Proof. vm_compute. repeat split. Qed.
+
+Print Assumptions C18_membership_follows_last_round.
+Print Assumptions C18_membership_exactly_one_reachable.
+Print Assumptions C18_restart_detected.
+Print Assumptions C18_membership_example.
+
 (** * Query half: the cluster merge (model C18/ClusterQuery.v, proofs C18/ClusterQueryProofs.v) *)
 From LMD Require Import QE.Engine QE.WindowProofs C01.Proofs C04.Proofs C05.Proofs C05.GroupByProofs C18.ClusterQuery C18.ClusterQueryProofs.
 From Coq Require Import Sorting.Sorted Permutation.
